@@ -207,7 +207,26 @@ func gitFamily(c map[string]json.RawMessage) (interface{}, error) {
 		os.Setenv("HOME", dir)
 		text := cmd.VerifGetCommitMessage()
 		os.Chdir(wd)
-		parsed := gitapp.BuildMessageByInput(text)
+		var parsed []gitapp.CommitMessage
+		if !boolean(c, "cli") {
+			parsed = gitapp.BuildMessageByInput(text)
+		} else {
+			// the command itself, in that repository, in a fresh process: `coca git -b` leaves coca_reporter/commits.json there
+			os.Setenv("GIT_CONFIG_NOSYSTEM", "1")
+			os.Setenv("HOME", dir)
+			if _, err := cocaCli(dir, "git", "-b"); err != nil {
+				return nil, err
+			}
+			b, err := os.ReadFile(filepath.Join(dir, "coca_reporter", "commits.json"))
+			if err != nil {
+				return nil, err
+			}
+			var fromCli []gitapp.CommitMessage
+			if err := json.Unmarshal(b, &fromCli); err != nil {
+				return map[string]interface{}{"reportUnreadable": err.Error()}, nil
+			}
+			parsed = fromCli
+		}
 		return map[string]interface{}{"text": text, "commits": commitsOut(parsed), "truth": truth}, nil
 	}
 	return nil, nil
